@@ -339,7 +339,19 @@ impl Prop for SrcProp {
                     origin.push_str("+damaged");
                 }
                 let range = pick_range(t, &src);
-                let cfg = config::config(t, env.f, &src, 0);
+                let mut cfg = config::config(t, env.f, &src, 0);
+                // range-targeted width: narrower than the request itself, so that whatever node is selected
+                // cannot stay on one line (a node is only ever laid out wrongly when it has to be broken; found
+                // missing when a sub-agent ran into the defect repaired by 7aa0fdd)
+                let span = range.1.min(src.len()).saturating_sub(range.0);
+                if (2..400).contains(&span) && t.chance(90) {
+                    cfg.width = match t.below(3) {
+                        0 => t.below(span),
+                        1 => span - 1,
+                        _ => span / 2,
+                    };
+                    st.label("range:width-narrower-than-request");
+                }
                 return Some(SrcCase { src, cfg, range: Some(range), origin });
             }
             Which::C07 => {
@@ -1003,11 +1015,23 @@ fn floor_cb(s: &str, mut i: usize) -> usize {
 
 pub fn pick_range(t: &mut Tape, src: &str) -> (usize, usize) {
     let n = src.len();
-    match t.weighted(&[4, 6, 4, 2, 2, 1, 1]) {
+    match t.weighted(&[4, 6, 4, 2, 2, 1, 1, 6]) {
         // empty range
         0 => {
             let a = floor_cb(src, t.below(n + 1));
             (a, a)
+        }
+        // exact range of an inner node (an expression with parts: chains, calls, operators, lists, ...)
+        7 => {
+            let root = syn::parse(src);
+            let flat = syn::flatten(&root);
+            let inner: Vec<usize> = (0..flat.len()).filter(|&i| flat[i].node.children().len() > 1 && flat[i].depth > 0).collect();
+            if inner.is_empty() {
+                (0, n)
+            } else {
+                let f = &flat[inner[t.below(inner.len())]];
+                (f.start, f.end)
+            }
         }
         // exact node range
         1 => {
